@@ -15,7 +15,15 @@ pub struct C05;
 #[derive(Clone, Debug, Serialize, Deserialize)]
 pub enum Family {
     /// inner join of 2-3 tables: equalities (ta, ca, tb, cb), per-table filters, projection
-    Join { eqs: Vec<(usize, usize, usize, usize)>, filters: Vec<(usize, APred)>, proj: Vec<(usize, usize)> },
+    Join {
+        eqs: Vec<(usize, usize, usize, usize)>,
+        filters: Vec<(usize, APred)>,
+        proj: Vec<(usize, usize)>,
+        /// extra WHERE conjunct `(A1 AND B1) OR (A2 AND B2) ..` with Ai over table 0 and Bi over table 1
+        /// (the shape from which per-table filters are derived for pushdown)
+        #[serde(default)]
+        or_branches: Vec<(APred, APred)>,
+    },
     /// semi / anti join of table 0 against table 1 on (ka, kb) with optional inner filter
     Semi { ka: usize, kb: usize, inner: Option<APred>, outer: Option<APred>, anti: bool },
 }
@@ -70,11 +78,14 @@ fn members(case: &Case) -> Vec<(&'static str, String)> {
     let from_item = |i: usize, wrapped: bool| if wrapped && case.wrap[i] { format!("(SELECT * FROM {}) AS {}", tname(i), tname(i)) } else { tname(i) };
     let mut out = Vec::new();
     match &case.family {
-        Family::Join { eqs, filters, proj } => {
+        Family::Join { eqs, filters, proj, or_branches } => {
             let n = tabs.len();
             let sel = proj.iter().map(|(t, c)| col(*t, *c)).collect::<Vec<_>>().join(", ");
             let eq_sql: Vec<String> = eqs.iter().map(|(ta, ca, tb, cb)| format!("({} = {})", col(*ta, *ca), col(*tb, *cb))).collect();
-            let f_sql: Vec<String> = filters.iter().map(|(t, p)| p.render(&tabs[*t])).collect();
+            let mut f_sql: Vec<String> = filters.iter().map(|(t, p)| p.render(&tabs[*t])).collect();
+            if !or_branches.is_empty() {
+                f_sql.push(format!("({})", or_branches.iter().map(|(a, b)| format!("({} AND {})", a.render(&tabs[0]), b.render(&tabs[1]))).collect::<Vec<_>>().join(" OR ")));
+            }
             let mut all = eq_sql.clone();
             all.extend(f_sql.clone());
             let where_all = if all.is_empty() { String::new() } else { format!(" WHERE {}", all.join(" AND ")) };
@@ -214,16 +225,39 @@ fn members(case: &Case) -> Vec<(&'static str, String)> {
                 ));
                 out.push(("not_in_subquery", format!("SELECT {} FROM {} WHERE {}", a_cols, a_from(false), and_outer(format!("{} NOT IN (SELECT {} FROM {}{})", ka_s, kb_s, b_from(false), sub_where(None))))));
             }
+            // correlation equality written after the other inner predicate
+            if let Some(i) = &inner_s {
+                let neg = if *anti { "NOT " } else { "" };
+                out.push((if *anti { "not_exists_corr_last" } else { "exists_corr_last" }, format!("SELECT {} FROM {} WHERE {}", a_cols, a_from(false), and_outer(format!("{}EXISTS (SELECT 1 FROM {} WHERE {} AND {} = {})", neg, b_from(false), i, kb_s, ka_s)))));
+                out.push((
+                    if *anti { "not_exists_aliased_corr_last" } else { "exists_aliased_corr_last" },
+                    format!("SELECT {} FROM {} WHERE {}", a_cols, a_from(false), and_outer(format!("{}EXISTS (SELECT 1 FROM {} AS s WHERE {} AND s.{} = {}.{})", neg, tname(1), i, kb_s, tname(0), ka_s))),
+                ));
+            }
+            // membership as a GROUP BY expression (reaches the index-backed IN evaluation without DISTINCT)
+            out.push((
+                "in_group_by_count",
+                format!(
+                    "SELECT COUNT(*) FROM {}{} GROUP BY ({} {}IN (SELECT {} FROM {}{}))",
+                    a_from(false),
+                    outer_s.as_ref().map(|o| format!(" WHERE {}", o)).unwrap_or_default(),
+                    ka_s,
+                    if *anti { "NOT " } else { "" },
+                    kb_s,
+                    b_from(false),
+                    sub_where(None)
+                ),
+            ));
         }
     }
     out
 }
 
 /// definitional results: (model for the family, model for NOT IN which has its own NULL semantics)
-fn model(case: &Case) -> (Vec<CRow>, Option<Vec<CRow>>) {
+fn model(case: &Case) -> (Vec<CRow>, Option<Vec<CRow>>, Option<Vec<CRow>>) {
     let tabs = &case.tables;
     match &case.family {
-        Family::Join { eqs, filters, proj } => {
+        Family::Join { eqs, filters, proj, or_branches } => {
             let n = tabs.len();
             let keep: Vec<Vec<&Vec<V>>> = (0..n)
                 .map(|i| tabs[i].rows.iter().filter(|r| filters.iter().filter(|(t, _)| *t == i).all(|(_, p)| holds(p, r) == Some(true))).collect())
@@ -231,11 +265,12 @@ fn model(case: &Case) -> (Vec<CRow>, Option<Vec<CRow>>) {
             let mut out = Vec::new();
             let mut idx = vec![0usize; n];
             if keep.iter().any(|k| k.is_empty()) {
-                return (out, None);
+                return (out, None, None);
             }
             'outer: loop {
                 let rows: Vec<&Vec<V>> = (0..n).map(|i| keep[i][idx[i]]).collect();
-                if eqs.iter().all(|(ta, ca, tb, cb)| eq_nonnull(&rows[*ta][*ca], &rows[*tb][*cb])) {
+                let or_ok = or_branches.is_empty() || or_branches.iter().any(|(a, b)| holds(a, rows[0]) == Some(true) && holds(b, rows[1]) == Some(true));
+                if or_ok && eqs.iter().all(|(ta, ca, tb, cb)| eq_nonnull(&rows[*ta][*ca], &rows[*tb][*cb])) {
                     out.push(proj.iter().map(|(t, c)| cv(&rows[*t][*c])).collect());
                 }
                 for i in (0..n).rev() {
@@ -249,7 +284,7 @@ fn model(case: &Case) -> (Vec<CRow>, Option<Vec<CRow>>) {
                     }
                 }
             }
-            (out, None)
+            (out, None, None)
         }
         Family::Semi { ka, kb, inner, outer, anti } => {
             let b_keys: Vec<&V> = tabs[1].rows.iter().filter(|r| passes(inner, r)).map(|r| &r[*kb]).collect();
@@ -268,7 +303,22 @@ fn model(case: &Case) -> (Vec<CRow>, Option<Vec<CRow>>) {
                     }
                 }
             }
-            (out, if *anti { Some(not_in) } else { None })
+            // COUNT(*) .. GROUP BY (x [NOT] IN (S)): one group per three-valued result
+            let mut counts = [0i128; 3];
+            for a in tabs[0].rows.iter().filter(|r| passes(outer, r)) {
+                let tv = if b_keys.iter().any(|k| eq_nonnull(&a[*ka], k)) {
+                    0
+                } else if b_keys.is_empty() {
+                    1
+                } else if a[*ka] == V::Null || b_keys.iter().any(|k| **k == V::Null) {
+                    2
+                } else {
+                    1
+                };
+                counts[tv] += 1;
+            }
+            let groups: Vec<CRow> = counts.iter().filter(|c| **c > 0).map(|c| vec![CV::Int(*c)]).collect();
+            (out, if *anti { Some(not_in) } else { None }, Some(groups))
         }
     }
 }
@@ -371,7 +421,12 @@ impl Check for C05 {
                     (ti, t.below(tables[ti].cols.len()))
                 })
                 .collect();
-            Family::Join { eqs, filters, proj }
+            let or_branches = if cfg.avoiding("c05.member.or_of_ands") || !t.chance(1, 4) {
+                vec![]
+            } else {
+                (0..t.range(2, 3)).map(|_| (gen_where(t, &tables[0], false, true), gen_where(t, &tables[1], false, true))).collect()
+            };
+            Family::Join { eqs, filters, proj, or_branches }
         };
         let index = if t.chance(1, 2) {
             match &family {
@@ -398,7 +453,7 @@ impl Check for C05 {
                 return Verdict::Harness(format!("vibesql rejected setup statement `{}`: {}", vcore::runner::truncate(&st, 300), e.text()));
             }
         }
-        let (m, m_not_in) = model(case);
+        let (m, m_not_in, m_groups) = model(case);
         let ms = members(case);
         let key_feature = match &case.family {
             Family::Join { eqs, .. } => eqs.iter().any(|(ta, ca, tb, cb)| {
@@ -426,7 +481,11 @@ impl Check for C05 {
         obs.nontrivial = ms.len() >= 3 && !m.is_empty() && key_feature;
         for (kind, sql) in &ms {
             obs.sub_evals += 1;
-            let expect = if *kind == "not_in_subquery" { m_not_in.as_ref().unwrap_or(&m) } else { &m };
+            let expect = match *kind {
+                "not_in_subquery" => m_not_in.as_ref().unwrap_or(&m),
+                "in_group_by_count" => m_groups.as_ref().unwrap_or(&m),
+                _ => &m,
+            };
             let sig = format!("c05.member.{}", kind);
             if vcore::kf::is_open_global(&sig) && std::env::var("VERIF_C05_ALL").is_err() {
                 // recorded defect of this member: run it, record the hit, but keep checking the other members
